@@ -125,4 +125,29 @@ CLAIMS = {
     },
 }
 
+# Later rounds (DESIGN.md section 8.2 is the authoritative list of conditions and bounds; the evidence files carry the literal pre: lines)
+_ADDENDA = {
+    "C01": " UTF-8 byte input: every cut of the seed texts x non-ASCII prefixes / suffixes parses exactly like the text (bytes_equiv).",
+    "C02": " Quoted-string values: shaped strings with a symbolic middle (after a backslash, inside \\u, after an ESCAPED backslash) decode to the reference value with the token's span (string_value).",
+    "C03": " Mixed documents: every ordered pair of 50 definition texts (definition_pairs); strings of a 20-character alphabet in 10 contexts (string_in_context).",
+    "C04": " Every condition runs BlockingExecutor AND the generic Executor and compares their common answer with the reference. Leaf completion as a product of leaf type x falsy / cross-type-equal values x wrappers x value sources x request history (leaf_values).",
+    "C05": " Both executors are compared with the reference. One fragment reused at two places with a same-key sibling at one of them (fragment_reuse); nested / triple / response-shape conflicts against spec references.",
+    "C06": " Spread placement (direct, nested, two depths) in the cycle graphs; operations named like fragments; placements, directive locations and variable positions as products.",
+    "C07": " CoerceArgumentValues as a full product (argument_matrix); variables inside list / object literals at 12 positions x 6 supplies (nested_variables); one node under two object types.",
+    "C08": " Resolvers that hand their work to the runtime again (info.runtime.submit) on a one-worker stub pool (starvation is detected); 7 classes of unexpected exception; shared resolver function.",
+    "C09": " Top-level fields failing while their value is completed; 10 spellings; one object type as both roots; meta-fields between mutations.",
+    "C10": " 20 failure stages incl. directives evaluated with null variables at the root / nested / in mutations and scalars serialising to null; serialised error paths against the reference executor.",
+    "C11": " The same declarations delivered as build_schema + extend_schema (sdl_two_step); additional_types objects reused across builds; root naming variants; empty deprecation reasons.",
+    "C12": " Code-built object defaults with keys in another order than the fields; empty deprecation reasons; 12 text variants on every description and reason.",
+    "C13": " Violations of an interface's own definition x implementation violations x the order in which types are reached; reported message sets equal across orders; interfaces that are not interface types.",
+    "C14": " Every default of every derived schema is written as a literal and read back; chained operation sequences; derived schemas are used through the registration API; directives with user-typed arguments.",
+    "C15": " Members deprecated with the empty reason; all-subclass schemas; includeDeprecated through variables and __type.",
+    "C16": " 20 outcomes incl. every selection switched off by @skip / @include and a root directive evaluated with a null variable; partially overriding stacked instrumentations.",
+    "C17": " The root field occurring several times with different sub-selections; falsy / container events x initial values; 15 refused / served spellings.",
+    "C19": " History of the rule object (the same parsed document checked before with other variable values).",
+    "C20": " Two positions retyped in one diff compose (retype_compose); non-null positions losing their default; code-built enums; root operation types (known finding).",
+}
+for _k, _v in _ADDENDA.items():
+    CLAIMS[_k]["text"] += _v
+
 NOT_APPLICABLE = {}
